@@ -4,6 +4,7 @@ import (
 	"bytes"
 	"encoding/binary"
 	"fmt"
+	"math"
 	"math/big"
 	"time"
 
@@ -319,6 +320,44 @@ func runC15(c *core.Ctx) {
 			}
 			if po.Expires() != e {
 				c.Violate("offline_signature.OfflineSignature.Expires", "field-differs", sh, o.Encode(), "")
+			}
+			// the Date handed out is the caller's: changing it changes nothing the value reports later,
+			// for the value itself and for a copy of the struct
+			if d != nil {
+				cp := po
+				for j := range d {
+					d[j] ^= 0xFF
+				}
+				for which, v := range []*offline_signature.OfflineSignature{&po, &cp} {
+					d2, err := v.ExpiresDate()
+					if err != nil || d2 == nil || rm.BigFromBytes(d2[:]).Cmp(wantMs) != 0 || unixMsBig(v.ExpiresTime()).Cmp(wantMs) != 0 {
+						c.Violate("offline_signature.OfflineSignature.ExpiresDate", "time-inexact", gen.Shape{"expires": e, "class": "after the caller changed the Date an earlier call returned", "struct_copy": which == 1}, o.Encode(), fmt.Sprint(err))
+						break
+					}
+				}
+			}
+			// the same through the constructor
+			if co, err := lib.BuildOffline(o, 7); err == nil {
+				if unixMsBig(co.ExpiresTime()).Cmp(wantMs) != 0 {
+					c.Violate("offline_signature.OfflineSignature.ExpiresTime", "time-inexact", gen.Shape{"expires": e, "constructed": true}, o.Encode(), "")
+				}
+				if d, err := co.ExpiresDate(); err != nil || d == nil || rm.BigFromBytes(d[:]).Cmp(wantMs) != 0 {
+					c.Violate("offline_signature.OfflineSignature.ExpiresDate", "time-inexact", gen.Shape{"expires": e, "constructed": true}, o.Encode(), fmt.Sprint(err))
+				}
+			}
+		}
+		// second counts beyond the millisecond range are refused, whatever their product with 1000 wraps to
+		{
+			limit := int64(math.MaxInt64 / 1000)
+			s := limit + 1 + int64(r.Uint64()%uint64(math.MaxInt64-limit))
+			if i%2 == 0 {
+				s = int64(1+r.Pick(9)) * int64(math.Pow10(16+r.Pick(3)))
+				if s <= limit {
+					s = limit + 1
+				}
+			}
+			if d, err := data.NewDateFromUnix(s); err == nil {
+				c.Violate("data.NewDateFromUnix", "conversion-inexact", gen.Shape{"seconds_beyond_millisecond_range": true}, []byte(fmt.Sprint(s)), fmt.Sprintf("%d s has no millisecond Date; stored as %v", s, d))
 			}
 		}
 		c.Nontrivial([]byte("leasetimes"), in, m1.Encode())
